@@ -21,6 +21,12 @@
 (*                                                                         *)
 (* Addresses: IPv4 = <<4 octets>>, IPv6 = <<8 hextets>> (TLC integers are  *)
 (* 32-bit), Nil = <<>> (Go's nil net.IP).                                  *)
+(*                                                                         *)
+(* Configurations: MC_AddrPolicy.cfg + MC_AddrPolicyWide.cfg (quick),      *)
+(* MC_AddrPolicyThorough.cfg; MC_AddrPolicyNegCgnat.cfg and                *)
+(* MC_AddrPolicyNegUdp.cfg are NEGATIVE (a weakened mechanism that TLC     *)
+(* must refute); Gen_AddrPolicy*.cfg (AddrPolicyGen: exports + scenarios); *)
+(* AddrPolicyTrace.cfg (AddrPolicyTrace: traces of the real code).         *)
 (***************************************************************************)
 EXTENDS Integers, Sequences, FiniteSets, TLC
 
